@@ -473,6 +473,7 @@ func doAdE(c *vlib.Ctx, a adV, verbose bool, emit bool) {
 		c.Nontrivial("ad:" + a.coq())
 	}
 	rp := adReplay(a)
+	checkValidateAndPrev(c, a, rp)
 	for _, codec := range []string{"cbor", "json"} {
 		clause, detail, block := valueOracle(codec, adOps(a))
 		if verbose {
@@ -491,6 +492,37 @@ func doAdE(c *vlib.Ctx, a adV, verbose bool, emit bool) {
 			}
 			min := shrinkAd(a, codec, clause)
 			c.Fail(fmt.Sprintf("value:%s:ad:%s:%s", codec, clause, adShape(min)), fmt.Sprintf("advertisement %+v with %s: %s: %s", min, codec, clause, detail), adReplay(min))
+		}
+	}
+}
+
+// checkValidateAndPrev: Advertisement.Validate accepts exactly the values within the two
+// length limits, and PreviousCid is the previous link or cid.Undef -- on the value itself and
+// on what comes back from a DAG-CBOR block of it.
+func checkValidateAndPrev(c *vlib.Ctx, a adV, rp replay) {
+	want := len(a.Ctx) <= schema.MaxContextIDLen && len(a.Meta) <= schema.MaxMetadataLen
+	check := func(where string, g schema.Advertisement) {
+		var verr error
+		var pc cid.Cid
+		gd := guard(func() error { verr = g.Validate(); pc = g.PreviousCid(); return nil })
+		c.Count("ad:validate:" + map[bool]string{true: "ok", false: "rejected"}[verr == nil])
+		switch {
+		case gd.panicked != "":
+			c.Fail("value:ad:validate-panic:"+where+":"+adShape(a), "Validate / PreviousCid panicked: "+gd.panicked, rp)
+		case (verr == nil) != want:
+			c.Fail(fmt.Sprintf("value:ad:validate:%s:ctx=%d,meta=%d", where, len(a.Ctx), len(a.Meta)), fmt.Sprintf("Validate() = %v for context ID of %d and metadata of %d bytes", verr, len(a.Ctx), len(a.Meta)), rp)
+		case (a.Prev == nil) != (pc == cid.Undef) || (a.Prev != nil && !bytes.Equal(pc.Bytes(), a.Prev)):
+			c.Fail("value:ad:previous-cid:"+where+":"+adShape(a), fmt.Sprintf("PreviousCid() = %v, the previous link is %x", pc, a.Prev), rp)
+		}
+	}
+	g := a.toGo(0)
+	check("value", g)
+	if n, err := g.ToNode(); err == nil {
+		var buf bytes.Buffer
+		if dagcbor.Encode(n, &buf) == nil {
+			if back, err := schema.BytesToAdvertisement(cid.NewCidV1(0x71, []byte{0x12, 0}), buf.Bytes()); err == nil {
+				check("decoded", back)
+			}
 		}
 	}
 }
@@ -622,6 +654,16 @@ func runValues(c *vlib.Ctx) {
 					}
 				}
 			}
+		}
+	}
+	// Validate's boundaries (family validate): one below, at, one above each limit
+	for _, ctx := range []int{0, schema.MaxContextIDLen - 1, schema.MaxContextIDLen, schema.MaxContextIDLen + 1, 200} {
+		for _, meta := range []int{0, 1, schema.MaxMetadataLen, schema.MaxMetadataLen + 1} {
+			a := adV{Provider: "p", Entries: entC, Ctx: fill(ctx, 5), Meta: fill(meta, 6)}.norm()
+			verr := a.toGo(0).Validate()
+			c.Eval()
+			c.Case("validate", fmt.Sprintf("(%s, %s)", a.coq(), vlib.CoqBool(verr == nil)), adReplay(a))
+			doAdE(c, a, false, false) // over-limit values still store, load and keep their CID
 		}
 	}
 	// links of other shapes: NoEntries (raw, 16-byte sha2-256), CIDv0, identity hash, dag-cbor / sha2-512
